@@ -59,12 +59,12 @@ class PlanState:
 
     def __init__(self):
         self.n = 0            # resumptions so far (index into the tape)
-        self.st = "none"      # none | await | canc | got | loose | dead   (pst of Engine/RespMon.v; SIn is resolved from the tape)
+        self.st = "none"      # none | await | canc | got | dead   (pst of Engine/RespMon.v; SIn is resolved from the tape)
         self.msg = None       # id of the message yielded last
         self.resp = None      # its recorded response
         self.seen = []        # exceptions of frames above since the last resumption
         self.other = False    # another plan was resumed since the last resumption
-        self.flags = set()    # reported deviations: "a" cancelled command -> None, "b" rejected suspension, "t" push while paused
+        self.flags = set()    # reported deviations: "a" = a cancelled command leaves None as its response
         self.bad = []         # inputs that nothing explains
 
 
@@ -96,7 +96,7 @@ def explain(obs, ps, inp):
         return (inp == ["send", None], None, "a plan is started with send(None)")
     if ps.st == "dead":
         return (False, None, "a finished plan was resumed")
-    if kind == "close" or ps.st == "loose":
+    if kind == "close":
         return (True, None, "")
     if ps.st == "got":
         if is_exn(ps.resp):
@@ -118,15 +118,6 @@ def explain(obs, ps, inp):
     return (allowed_exn(ps, inp[1]), None, "the exception is neither injected by the engine nor raised by a frame above")
 
 
-def completes(os_):
-    for x in os_:
-        if x[0] == "resp":
-            return True
-        if x[0] in ("msg", "plan_in"):
-            return False
-    return False
-
-
 def monitor_responses(obs):
     """-> {pid: PlanState}: the response discipline of every plan of the run (mirror of RespMon.chk, for all plans)."""
     plans = {}
@@ -145,24 +136,6 @@ def monitor_responses(obs):
                         ps.st = "dead"
                 plans[ncall] = PlanState()
             ncall += 1
-        elif k == "req_done" and ev[1] == "suspend":
-            for ps in plans.values():
-                if ps.st == "await":
-                    if ev[3] != "ok":
-                        ps.st = "loose"
-                        ps.flags.add("b")
-                    elif state == "paused":
-                        ps.st = "loose"
-                        ps.flags.add("t")
-        elif k == "main" and ev[1] == "resume":
-            for ps in plans.values():
-                if ps.st == "await" and state == "paused":
-                    ps.st = "loose"
-                    ps.flags.add("t")
-        elif k == "task":
-            for ps in plans.values():
-                if ps.st == "await" and not completes(os_):
-                    ps.st = "canc"
         # ---- observations (RespMon.mon_obs)
         for x in os_:
             kk = x[0]
@@ -234,7 +207,7 @@ def monitor_responses(obs):
 
 
 def check_responses(obs):
-    """-> list of (kind, message): kind 'a'/'b'/'t' = reported deviation class, 'bad' = unexplained input."""
+    """-> list of (kind, message): kind 'a' = reported deviation class, 'bad' = unexplained input."""
     out = []
     for pid, ps in sorted(monitor_responses(obs).items()):
         for b in ps.bad:
@@ -245,11 +218,11 @@ def check_responses(obs):
 
 
 def coq_agree_args(obs, pid=0):
-    """(accepted, a, b, t) of plan pid, the arguments of RespMon.resp_agree."""
+    """(accepted, a) of plan pid, the arguments of RespMon.resp_agree."""
     ps = monitor_responses(obs).get(pid)
     if ps is None:
-        return (True, False, False, False)
-    return (not ps.bad, "a" in ps.flags, "b" in ps.flags, "t" in ps.flags)
+        return (True, False)
+    return (not ps.bad, "a" in ps.flags)
 
 
 def check_status_failures(obs):
